@@ -272,7 +272,8 @@ func plan(prop, tier string) []run {
 		add("K3b@v2", "M3", 0, mul*10*time.Second)  // every vote variant of two Byzantine members for the correct leader of view 2: exhaustive
 		add("K10^2@v1", "M0", 0, mul*5*time.Second)   // weights 7,1,1,1: the first leader is a quorum by itself and decides inside its own proposal step: exhaustive
 		add("K10b^2@v1", "M0", 0, mul*5*time.Second)  // the same with the light members silent
-		add("K1@v1", "M4F", 0, mul*10*time.Second)    // Byzantine leader of view 1: NEW_VIEWs whose votes carry forged signatures: exhaustive
+		add("K1@v1a", "M4F", 0, mul*10*time.Second)   // the same with a one-block alphabet (the forged NEW_VIEW re-proposes against a commit of view 0): exhaustive
+		add("K1@v1", "M4F", 0, mul*25*time.Second)    // Byzantine leader of view 1: NEW_VIEWs whose votes carry forged signatures: exhaustive
 		add("K1@v1", "M4H", 0, mul*10*time.Second)    // ... whose embedded PREPREPARE names another hash than the proven / attached block: exhaustive
 		add("K0@v0", "M0", -1, mul*5*time.Second)     // four correct members, every single-delivery order in view 0 (a COMMIT quorum can precede the proposal): exhaustive
 		if prop == "C11" || !q {
